@@ -12,7 +12,9 @@ Alphabet == {C("a"), C("z"), C("A"), C("Z"), C("!"), C("."), C("/"), C("1"), C("
 Frag == {S("con"), S("CON"), S("Con"), S("nul"), S("NUL"), S("com1"), S("COM1"), S("Com1"), S("lpt9"), S("LPT9"), S("aux"), S("AUX"),
          S("v1.0.0"), S("a"), S("A"), S("a~1"), S("A~1")}
 Words == Frag \cup {f \o <<sep>> \o g : f \in Frag, g \in Frag, sep \in {cDot, cSlash, C("-")}}
-Vocab == Words \cup {Esc(w) : w \in Words}
+\* the escape character followed by every ASCII character (and one beyond): only a lower-case letter may follow it
+Bangs == {S("a!") \o <<c>> \o S("b") : c \in (1..127) \cup {233}} \cup {S("v1.0.0-x!") \o <<c>> : c \in (1..127) \cup {233}}
+Vocab == Words \cup {Esc(w) : w \in Words} \cup Bangs
 Init == s = <<>>
 Next == \/ Len(s) < MaxLen /\ \E c \in Alphabet : s' = Append(s, c)
         \/ s = <<>> /\ s' \in Vocab
